@@ -114,6 +114,12 @@ impl<K, T> Map<K, T> {
     pub fn has_key(&self, s: &Storage, k: K) -> (r: bool) ensures r == self.has(s, k) { unimplemented!() }
 }
 
+// cw2: contract version item (namespace "contract_info"; id = the extractor's R5 hash of that literal)
+pub spec const CW2_NS: int = 246209684066071int;
+pub uninterp spec fn cw2_bytes(name: Seq<char>, version: Seq<char>) -> Seq<u8>;
+#[verifier::external_body]
+pub fn set_contract_version<A: StrLike, B: StrLike>(s: &mut Storage, name: A, version: B) -> (r: Result<(), StdError>)
+    ensures r is Ok, final(s).kv@ == old(s).kv@.insert((CW2_NS, Seq::<u8>::empty()), cw2_bytes(name.str_view(), version.str_view())) { unimplemented!() }
 // ---------- environment ----------
 pub struct Timestamp { pub nanos: u64 }
 impl Clone for Timestamp { #[verifier::external_body] fn clone(&self) -> (r: Self) ensures r == *self { unimplemented!() } }
